@@ -251,7 +251,7 @@ def st_post(draw):
     if t == 'hold':
         return {'type': t, 'm': draw(st.integers(2, 6))}
     if t == 'dc':
-        return {'type': t, 'offset': draw(st.sampled_from([-100.0, -1.0, 0.5, 3.0, 1000.0]))}
+        return {'type': t, 'offset': draw(st.sampled_from([-100.0, -1.0, 0.5, 3.0, 1000.0, 1.0e6, -3.0e7]))}
     if t == 'scale':
         return {'type': t, 'e': draw(st.integers(-3, 3))}
     return {'type': 'negate'}
@@ -359,6 +359,9 @@ def st_analysis_case(draw, methods=('cycles', 'amp'), centers=('peak', 'trough')
     n_min = int(max(need, min_periods * p_lo))
     n_max = int(min(max(max_n, n_min + 64), max(n_min + 64, 45 * p_lo)))
     n = draw(st.integers(n_min, n_max))
+    if draw(st.integers(0, 7)) == 0:
+        # shortest recordings the filters accept: a handful of oscillations, tables of one to three rows
+        n = draw(st.integers(max(need, int(4 * p_lo)), max(need, int(4 * p_lo)) + int(3 * p_lo)))
     fek = None
     bnd = None
     if boundary:
